@@ -255,8 +255,19 @@ class Interp:
         q = np.zeros(len(self.zero_q), dtype=int)
         for i in range(self.n):
             st_idx = ins["occ"][i % len(ins["occ"])] % self.dims[i]
-            cond[gen.site_dofs(self.spec, i)[0]] = int(st_idx)
-            q = q + gen.site_sigmaqn(self.spec, i)[st_idx]
+            sq = np.asarray(gen.site_sigmaqn(self.spec, i))
+            if ins.get("vec") and (ins["vec"] + i) % 2:
+                # vector-valued local state (documented form {"v_3": [0, 0.707, 0.707]}): a superposition of the local states that
+                # carry the same quantum number as the drawn one, with amplitudes of either sign (incl. all negative)
+                same = [k for k in range(self.dims[i]) if np.array_equal(sq[k], sq[st_idx])]
+                amp = [-0.6, -0.8, 0.5, -1.0, 0.3]
+                v = [0.0] * int(self.dims[i])
+                for j, k in enumerate(same[:3]):
+                    v[k] = amp[(ins["vec"] + i + j) % len(amp)]
+                cond[gen.site_dofs(self.spec, i)[0]] = v
+            else:
+                cond[gen.site_dofs(self.spec, i)[0]] = int(st_idx)
+            q = q + sq[st_idx]
         ok, mps = self.guard("create.prod", Mps.hartree_product_state, self.fresh_model(), cond,
                              ins["qnidx"] % self.n if ins.get("qnidx") is not None else None)
         if ok:
@@ -811,7 +822,7 @@ def create_instr(draw, spec, allow=("rand", "prod", "gs", "dense")):
                 "pct": draw(st.sampled_from([1.0, 0.5, 0.0])), "rng": draw(st.integers(0, 10 ** 6)),
                 "cplx": draw(st.booleans())}
     if op == "prod":
-        return {"op": "prod", "occ": draw(st.lists(st.integers(0, 3), min_size=1, max_size=6)),
+        return {"op": "prod", "vec": draw(st.sampled_from([0, 0, 1, 2, 3, 4])), "occ": draw(st.lists(st.integers(0, 3), min_size=1, max_size=6)),
                 "qnidx": draw(st.one_of(st.none(), st.integers(0, 6)))}
     if op == "gs":
         return {"op": "gs", "maxent": draw(st.booleans())}
